@@ -128,6 +128,23 @@ def scanErr : Ending → GoErr
   | .eof => .nil
   | .fail => .other
 
+/-- `*bufio.Reader` as far as `ReadString` goes: the bytes not yet read and how the source ends. -/
+structure BufRd where
+  rest : Bytes
+  ending : Ending
+  deriving Repr, DecidableEq
+
+/-- `r.ReadString(delim)`: the bytes up to and including the first `delim`, or -- when there is none -- all
+remaining bytes together with the error the source ends with (`io.EOF`, or the read error). -/
+def readString (r : BufRd) (delim : UInt8) : Bytes × GoErr × BufRd :=
+  let pre := r.rest.takeWhile (· != delim)
+  if pre.length < r.rest.length then (pre ++ [delim], GoErr.nil, { r with rest := r.rest.drop (pre.length + 1) })
+  else (r.rest, endErr r.ending, { r with rest := [] })
+
+/-- `strings.TrimSuffix`. -/
+def trimSuffix (s suffix : Bytes) : Bytes :=
+  if suffix.isSuffixOf s then s.take (s.length - suffix.length) else s
+
 /-- `Scanner.Scan()` on the remaining tokens: (ok, current token, remaining tokens) -/
 def scan (cur : Bytes) : List Bytes → Bool × Bytes × List Bytes
   | [] => (false, cur, [])
